@@ -60,3 +60,21 @@ let u_consolidators c =
   | _ -> Skip
 
 let () = register [ ("consolidators", u_consolidators) ]
+
+(* unit prelines: "no code is skipped by line-based formatting" on the lines the formatters are HANDED (after the voiding of
+   lines that lie wholly in ignored tokens): every token that is not ignored belongs to at least one of those lines *)
+let u_prelines c =
+  match state c "pre", (try Some (List.assoc "pre" c.lines) with Not_found -> None) with
+  | Some st, Some ls ->
+    let n = Array.length st in
+    let covered = Array.make n false in
+    List.iter (fun l -> List.iter (fun t -> if t >= 0 && t < n then covered.(t) <- true) l.toks) ls;
+    let bad = ref None in
+    Array.iteri (fun i k -> if !bad = None && not k.ign && not covered.(i) then bad := Some i) st;
+    (match !bad with
+     | None -> Ok_
+     | Some i -> Viol ("formatted_token_in_no_line", Printf.sprintf "token %d (%s), not ignored, is in none of the lines handed to the formatters: %s" i st.(i).ty (show_lines ls)))
+  | _ -> Skip
+
+let () = register [ ("prelines", u_prelines) ]
+
